@@ -897,6 +897,30 @@ Section InstanceProofs.
     - intros s. reflexivity.
   Qed.
 
+  Lemma insk_perm key m l : Permutation (insk key m l) (m :: l).
+  Proof.
+    induction l as [|x r IH]; cbn [insk]; [reflexivity|].
+    destruct (key m <? key x); [reflexivity|]. rewrite IH. apply perm_swap.
+  Qed.
+
+  Lemma split_oldk_app key lim l : fst (split_oldk key lim l) ++ snd (split_oldk key lim l) = l.
+  Proof.
+    induction l as [|x r IH]; cbn [split_oldk]; [reflexivity|].
+    destruct (key x <? lim); [|reflexivity]. destruct (split_oldk key lim r) as [a b]. cbn [fst snd app] in *. congruence.
+  Qed.
+
+  (* whatever the sort read from the lifecycle table (any [key]): a permutation stage *)
+  Lemma st_sort_key_perm_stage key w : perm_stage (st_sort_key key w).
+  Proof.
+    exists (fun s => s). split; [reflexivity|]. split.
+    - intros s m. cbn [st_sort_key step_fn]. pose proof (split_oldk_app key (m - w) (insk key m s)) as H.
+      destruct (split_oldk key (m - w) (insk key m s)) as [old keep]. cbn in *.
+      apply Permutation_trans with (l' := insk key m s); [|rewrite <- H; apply Permutation_refl].
+      apply Permutation_trans with (l' := m :: s); [apply Permutation_sym, Permutation_cons_append|].
+      apply Permutation_sym, insk_perm.
+    - intros s. reflexivity.
+  Qed.
+
   Lemma filter_stage_F (keep : N -> bool) (g : @stage imsg ist) :
     (forall s m, step_fn g s m = (s, if keep m then [m] else [])) -> (forall s, flush g s = []) ->
     forall l, F g l = filter keep l.
